@@ -10,9 +10,9 @@
 
 namespace vf {
 
-enum RangeKind { RK_PTR = 0, RK_RA, RK_LIST, RK_FWD, RK_INPUT, RK_MOVE, RK_PROTO, RK_N };
+enum RangeKind { RK_PTR = 0, RK_RA, RK_LIST, RK_FWD, RK_INPUT, RK_MOVE, RK_PROTO, RK_VECIT, RK_REV, RK_N };
 inline const char *rkname(int k) {
-  static const char *n[] = {"ptr", "random_access", "list", "forward_list", "single_pass_input", "move_iterator", "values_of_another_type"};
+  static const char *n[] = {"ptr", "random_access", "list", "forward_list", "single_pass_input", "move_iterator", "values_of_another_type", "vector_iterator", "reverse_iterator"};
   return n[k];
 }
 
@@ -152,6 +152,22 @@ void with_range(int kind, const std::vector<Val> &vals, F &&f) {
         f(RaIt<E>(sb), RaIt<E>(sb + 2 * vals.size()));
         MonScope m;
         strided.clear();
+      } else if (kind == RK_VECIT) {
+        // iterators of class type over contiguous storage (std::vector<E>::const_iterator)
+        const std::vector<E> &ca = a;
+        f(ca.begin(), ca.end());
+      } else if (kind == RK_REV) {
+        // reverse iterators: random access, decreasing addresses
+        std::vector<E> rv;
+        {
+          MonScope m;
+          rv.reserve(vals.size());
+          for (size_t i = vals.size(); i-- > 0;) rv.emplace_back(Mk<E>::make(vals[i]));
+        }
+        const E *rb = rv.data();
+        f(std::reverse_iterator<const E *>(rb + vals.size()), std::reverse_iterator<const E *>(rb));
+        MonScope m;
+        rv.clear();
       } else if (kind == RK_MOVE) {
         E *mb = a.data();
         f(std::make_move_iterator(mb), std::make_move_iterator(mb + vals.size()));
